@@ -81,14 +81,15 @@ theorem findPrepared_removePrepared_ne (ps : List PreparedTx) {tx t' : Nat} (h :
 
 /-- `prepare(tx)` on a participant satisfying the invariant: the data is untouched, every key held
     by another transaction keeps its lock, every other transaction's prepared record is untouched, and
-    if one of the requested keys is held by another transaction the participant is left exactly as it
-    was and answers CONFLICT naming a transaction other than `tx`. -/
+    if one of the keys of its lock set (logical, storage or write key of one of its operations) is held
+    by another transaction the participant is left exactly as it was and answers CONFLICT naming a
+    transaction other than `tx`. -/
 theorem prepare_respects_others {now nh : Nat} {p : Participant} (h : PInv now nh p) (tx : Nat) (ops : List Op) :
     (p.prepare now nh tx ops).1.store = p.store ∧
     (∀ k l, findLock p.locks.locks k = some l → l.tx ≠ tx →
       findLock (p.prepare now nh tx ops).1.locks.locks k = some l) ∧
     (∀ t', t' ≠ tx → findPrepared (p.prepare now nh tx ops).1.prepared t' = findPrepared p.prepared t') ∧
-    ((∃ op ∈ ops, ∃ l, findLock p.locks.locks op.key = some l ∧ l.tx ≠ tx) →
+    ((∃ k ∈ lockKeys ops, ∃ l, findLock p.locks.locks k = some l ∧ l.tx ≠ tx) →
       ∃ c, c ≠ tx ∧ p.prepare now nh tx ops = (p, .conflict c)) := by
   refine ⟨prepare_store p now nh tx ops, ?_, ?_, ?_⟩
   · intro k l hf hne
@@ -103,11 +104,10 @@ theorem prepare_respects_others {now nh : Nat} {p : Participant} (h : PInv now n
       have : tx ≠ t' := fun e => hne e.symm
       simp only [this, if_false]
       exact findPrepared_removePrepared_ne p.prepared hne
-  · rintro ⟨op, hop, l, hf, hne⟩
-    obtain ⟨c, hc, hl⟩ := tryLock_conflict_of_held (h := nh) h.notExpired
-      (List.mem_map.2 ⟨op, hop, rfl⟩) hf hne
+  · rintro ⟨k, hk, l, hf, hne⟩
+    obtain ⟨c, hc, hl⟩ := tryLock_conflict_of_held (h := nh) h.notExpired hk hf hne
     refine ⟨c, hc, ?_⟩
-    unfold Participant.prepare
+    unfold Participant.prepare Participant.prepareWith
     simp only [hl]
 
 /-- any sequence of participant-side aborts (the body of `cleanup_stale` / `recover`) keeps the
